@@ -151,7 +151,12 @@ impl StateSpace for SO2StateSpace {
     fn satisfies_bounds(&self, state: &Self::StateType) -> bool {
         let val = state.clone().normalise().value;
         let (lower, upper) = self.bounds;
-        val >= lower && val <= upper
+        let within = |v: f64| v >= lower && v <= upper;
+
+        // `normalise` maps +PI (and angles within rounding of it) to -PI. Both name the same
+        // angle, so a state is inside if either representation is: otherwise the upper bound
+        // PI itself, which `enforce_bounds` produces, would be rejected.
+        within(val) || within(state.value)
     }
 
     /// Generates a random angle from within the defined bounds.
